@@ -173,15 +173,17 @@ def generate(info):
     # batch mode (scheduler build): one process serves many schedules, each in a forked child, so
     # that a sweep does not pay for a Python-side process start per schedule.  stdin: lines
     # "<schedule> <programs>"; after each child a line {"k":"done","rc":<exit status or -signal>}.
-    # The batch stops at the first child that hangs or deadlocks (rc 99 for the rest).
+    # The batch stops at the first child that hangs or deadlocks (rc 99 for the rest) and after three
+    # children that stalled and completed only when running freely (rc 98 for the rest: no verdict).
     w('#include <sys/wait.h>\n#include <unistd.h>')
     w('int main(int argc, char** argv) {')
     w('#ifdef VERIF_SCHED')
     w('  if (argc > 1 && std::string(argv[1]) == "--batch") {')
-    w('    std::string line; bool stop = false;')
+    w('    std::string line; bool stop = false; int stalled = 0;')
     w('    while (std::getline(std::cin, line)) {')
     w('      if (line.empty()) continue;')
     w('      if (stop) { std::cout << "{\\"k\\":\\"done\\",\\"rc\\":99}" << std::endl; continue; }')
+    w('      if (stalled >= 3) { std::cout << "{\\"k\\":\\"done\\",\\"rc\\":98}" << std::endl; continue; }')
     w('      auto sp = line.find(\' \'); std::string a = line.substr(0, sp), b = line.substr(sp + 1);')
     w('      std::cout << std::flush; std::cerr << std::flush;')
     w('      pid_t pid = fork();')
@@ -190,7 +192,8 @@ def generate(info):
     w('      int st = 0; waitpid(pid, &st, 0);')
     w('      int rc = WIFEXITED(st) ? WEXITSTATUS(st) : -WTERMSIG(st);')
     w('      if (rc == 5 || rc == -14) stop = true;')
-    w('      std::cout << "{\\"k\\":\\"done\\",\\"rc\\":" << rc << "}" << std::endl;')
+    w('      if (rc == 4) ++stalled;  // gating dropped, completed freely: every such run costs seconds')
+    w('      std::cout << "\\n{\\"k\\":\\"done\\",\\"rc\\":" << rc << "}" << std::endl;')
     w('    }')
     w('    return 0;')
     w('  }')
